@@ -2312,6 +2312,153 @@ theorem simulateChunk_inv (fuel : Nat) (e : Engine M) (sym : Nat) (cs : List Can
             exact ⟨LInv.of_same hss hl3, by rw [hss.2]; exact hcfg4⟩
           · exact ⟨hl3, hcfg4⟩
 
+/-! ### a whole iteration of the fast simulator for one symbol -/
+
+theorem close_fold_err_skip (sym i step : Nat) (cs' : List Candle) (L : List Nat) (e : Engine M) (h : e.err.isSome) :
+    (L.foldl (fun (e : Engine M) (tf : Nat) =>
+        if (i + step) % tf = 0 then
+          match generateCandle tf (Py.slice cs' (some ((i : Int) - (tf : Int) + step)) (some ((i : Int) + step))) False with
+          | .ok g => addCandle e sym tf g
+          | .error k => fail e k
+        else e) e).err.isSome := by
+  induction L generalizing e with
+  | nil => exact h
+  | cons m rest ih =>
+    simp only [List.foldl_cons]
+    apply ih
+    split
+    · split
+      · exact h
+      · unfold fail; rw [if_pos h]; exact h
+    · exact h
+
+/-- if `S` divides `m`, a number that is not a multiple of `S` is not a multiple of `m` -/
+theorem not_mul_of_dvd (S m x : Nat) (hS : S ∣ m) (hx : x % S ≠ 0) : x % m ≠ 0 := by
+  intro h
+  apply hx
+  exact Nat.mod_eq_zero_of_dvd (Nat.dvd_trans hS (Nat.dvd_of_mod_eq_zero h))
+
+/-- ONE ITERATION OF THE FAST SIMULATOR FOR ONE SYMBOL, every strategy: a chunk of `step` minutes starting at row `i`
+    (a multiple of the nominal step `S`, which divides every timeframe of the symbol; `step ≤ S`) leads from `EInv` with
+    the first `i` rows to `EInv` with the first `i + step` rows, unless the run was stopped by an error. -/
+theorem symSkip_inv (fuel i step S : Nat) (e : Engine M) (inputs : List (List Candle)) (sym : Nat) (t0 : Int)
+    (hal : AlignedCfg e.cfg sym t0) (hstep : 0 < step) (hstepS : step ≤ S) (hiS : i % S = 0)
+    (hdiv : ∀ m ∈ tfsRaw e.cfg sym, S ∣ m)
+    (hin : ∀ j (h : j < (inputs.getD sym []).length), (inputs.getD sym [])[j].ts = t0 + 60000 * (j : Int))
+    (hil : i + step ≤ (inputs.getD sym []).length)
+    (hi : EInv e sym t0 ((inputs.getD sym []).take i)) :
+    (symSkip u fuel i step (e, inputs) sym).1.err.isSome ∨
+    (EInv (symSkip u fuel i step (e, inputs) sym).1 sym t0 (((symSkip u fuel i step (e, inputs) sym).2.getD sym []).take (i + step)) ∧
+     (symSkip u fuel i step (e, inputs) sym).1.cfg = e.cfg ∧
+     ((symSkip u fuel i step (e, inputs) sym).2.getD sym []).length = (inputs.getD sym []).length ∧
+     ∀ j (h : j < ((symSkip u fuel i step (e, inputs) sym).2.getD sym []).length),
+       ((symSkip u fuel i step (e, inputs) sym).2.getD sym [])[j].ts = t0 + 60000 * (j : Int)) := by
+  unfold symSkip
+  dsimp only
+  split
+  · left; assumption
+  · generalize hcs : inputs.getD sym [] = cs at *
+    -- the input array after the normalisation of the chunk's first row
+    have hff : ∃ cs', fixedFirst cs i = cs' ∧ cs'.length = cs.length ∧ cs'.take i = cs.take i ∧
+        ∀ j (h : j < cs'.length), cs'[j].ts = t0 + 60000 * (j : Int) := by
+      unfold fixedFirst
+      by_cases h0 : i = 0
+      · simp only [h0, ne_eq, not_true_eq_false, if_false]; exact ⟨cs, rfl, rfl, rfl, hin⟩
+      · simp only [h0, ne_eq, not_false_eq_true, if_true]
+        cases hfr : fixedRow cs i with
+        | none => exact ⟨cs, rfl, rfl, rfl, hin⟩
+        | some c =>
+          have hil' : i < cs.length := by omega
+          have hcts : c.ts = t0 + 60000 * (i : Int) := by
+            unfold fixedRow at hfr
+            rw [List.getElem?_eq_getElem hil'] at hfr
+            simp only [h0, if_false] at hfr
+            have hlt : i - 1 < cs.length := by omega
+            rw [List.getElem?_eq_getElem hlt] at hfr
+            injection hfr with hfr
+            rw [← hfr]
+            rcases fix_jump_spec cs[i - 1] cs[i] with h | h
+            · rw [h.1]; exact hin i hil'
+            · rw [h.2]; exact hin i hil'
+          refine ⟨cs.set i c, rfl, by simp, List.take_set_of_le (le_refl i), ?_⟩
+          intro j hj
+          have hj' : j < cs.length := by simpa using hj
+          by_cases hji : j = i
+          · subst hji; simp [hcts]
+          · rw [List.getElem_set_ne (by omega)]; exact hin j hj'
+    obtain ⟨cs', hcs', hlen', htake', hin'⟩ := hff
+    rw [hcs']
+    have hsyml : sym < inputs.length := by
+      by_contra hge
+      have : inputs.getD sym [] = [] := by
+        rw [List.getD_eq_getElem?_getD, List.getElem?_eq_none (by omega)]; rfl
+      rw [hcs] at this; rw [this] at hil; simp at hil; omega
+    have hget : (inputs.set sym cs').getD sym [] = cs' := by
+      rw [List.getD_eq_getElem?_getD, List.getElem?_set_self (by omega)]; rfl
+    simp only [hget]
+    -- the chunk
+    have hle : i + step ≤ cs'.length := by rw [hlen']; exact hil
+    have hchunk : Py.slice cs' (some (i : Int)) (some ((i : Int) + step)) = (cs'.take (i + step)).drop i := by
+      have e2 : ((i : Int) + (step : Int)) = ((i + step : Nat) : Int) := by omega
+      rw [e2, slice_nat cs' i (i + step) (by omega) hle]
+    rw [hchunk]
+    have hclen : ((cs'.take (i + step)).drop i).length = step := by
+      rw [List.length_drop, List.length_take]; omega
+    have hcne : (cs'.take (i + step)).drop i ≠ [] := by
+      intro h0; rw [h0] at hclen; simp at hclen; omega
+    have hrows : cs.take i ++ (cs'.take (i + step)).drop i = cs'.take (i + step) := by
+      rw [← htake']
+      have : cs'.take i = (cs'.take (i + step)).take i := by rw [List.take_take]; congr 1; omega
+      rw [this, List.take_append_drop]
+    have hlen1 : (cs.take i).length = i := by rw [List.length_take]; omega
+    have hcts : ∀ j (h : j < ((cs'.take (i + step)).drop i).length),
+        ((cs'.take (i + step)).drop i)[j].ts = t0 + 60000 * (((cs.take i).length + j : Nat) : Int) := by
+      intro j hj
+      rw [hclen] at hj
+      rw [List.getElem_drop, List.getElem_take, hlen1]
+      exact hin' (i + j) (by omega)
+    have hwin : ∀ m ∈ tfsRaw e.cfg sym, ∀ j, j + 1 < ((cs'.take (i + step)).drop i).length → ((cs.take i).length + j + 1) % m ≠ 0 := by
+      intro m hm j hj
+      rw [hclen] at hj
+      rw [hlen1]
+      apply not_mul_of_dvd S m _ (hdiv m hm)
+      have hS : 0 < S := by omega
+      have : (i + j + 1) % S = (j + 1) % S := by
+        have hd := Nat.div_add_mod i S
+        rw [hiS, Nat.add_zero] at hd
+        rw [← hd, Nat.add_assoc, Nat.mul_add_mod]
+      rw [this, Nat.mod_eq_of_lt (by omega)]
+      omega
+    have hch := simulateChunk_inv u fuel e sym ((cs'.take (i + step)).drop i) t0 (cs.take i) hal hi hcne hcts hwin
+    revert hch
+    generalize simulateChunk u fuel e sym ((cs'.take (i + step)).drop i) = e1
+    intro hch
+    rcases hch with herr | ⟨hl, hcfg1⟩
+    · left; exact close_fold_err_skip sym i step _ _ e1 herr
+    · right
+      rw [hrows] at hl
+      have hT : ∀ m ∈ tfsRaw e.cfg sym, 0 < m ∧ m ≠ 1 := by
+        intro m hm
+        refine ⟨(hal.2 m hm).1, ?_⟩
+        unfold tfsRaw at hm
+        obtain ⟨r, hr, rfl⟩ := List.mem_map.mp hm
+        have := (List.mem_filter.mp hr).2
+        simp only [decide_eq_true_eq] at this
+        exact this.2
+      have hL : ∀ m ∈ tfsOf e.cfg sym, m ∈ tfsRaw e.cfg sym := by
+        intro m hm; exact (mem_eraseDups_nat _ m).mp hm
+      have hpre' : ∀ m ∈ tfsRaw e.cfg sym, PreInv m (cs'.take (i + step)) (longOf (storeOf e1 sym) m) := by
+        intro m hm; exact hl.pre m (by rw [hcfg1]; exact hm)
+      obtain ⟨r1, r2, r3, r4, _⟩ := close_fold_skip sym i step hstep cs' (cs'.take (i + step)) t0 hal.1 (tfsRaw e.cfg sym) hT
+        (by rw [List.length_take]; omega) rfl hl.spaced (tfsOf e.cfg sym) hL e1 [] hl.hs hl.short hpre' (by intro m hm; cases hm)
+      have hcfg3 := r4.trans hcfg1
+      refine ⟨⟨r1, r2, hl.spaced, ?_⟩, hcfg3, hlen', hin'⟩
+      intro m hm
+      have hm' : m ∈ tfsRaw e.cfg sym := by
+        have := congrArg (fun c => tfsRaw c sym) hcfg3
+        rw [← this]; exact hm
+      exact r3 m (by rw [List.nil_append]; exact (mem_eraseDups_nat _ m).mpr hm')
+
 end run
 
 end C07
